@@ -9,7 +9,9 @@ import (
 
 	"github.com/coregx/coregex/dfa/lazy"
 	"github.com/coregx/coregex/dfa/onepass"
+	"github.com/coregx/coregex/literal"
 	"github.com/coregx/coregex/nfa"
+	"github.com/coregx/coregex/prefilter"
 )
 
 // ---------------------------------------------------------------------------
@@ -195,6 +197,16 @@ func cmdC14(args []string) int {
 				continue
 			}
 			dfas = append(dfas, dfaInst{dc.name, dd, dd.NewCache()})
+		}
+		// the same DFA with a prefix prefilter installed (CompileWithPrefilter): the search loops
+		// then skip ahead to prefilter candidates and re-select the start state there
+		if seq := literal.New(literal.DefaultConfig()).ExtractPrefixes(re); seq != nil && !seq.IsEmpty() && !seq.IsPartialCoverage() {
+			if pf := prefilter.NewBuilder(seq, nil).Build(); pf != nil {
+				if dd, err := lazy.CompileWithPrefilter(n, lazy.DefaultConfig(), pf); err == nil {
+					dfas = append(dfas, dfaInst{"/prefilter", dd, dd.NewCache()})
+					st.hist("dfa-with-prefilter")
+				}
+			}
 		}
 		var op *onepass.DFA
 		var opCache *onepass.Cache
